@@ -5,10 +5,11 @@ package main
 
 import (
 	"fmt"
-	"math/big"
 	"go/ast"
 	"go/token"
 	"go/types"
+	"math/big"
+	"os"
 	"regexp"
 	"sort"
 	"strings"
@@ -21,8 +22,8 @@ type State struct {
 	dead   bool
 	cut    int            // index into the premise list at the innermost loop head this state is inside of (0: none)
 	kinds  map[string]int // interface value term -> dynamic kind known on this path (type switch / assertion)
-	probe  *[]string // non-nil: heap reads resolve to formal parameters hp!<key> (recursive spec function bodies)
-	leaves [][]Term // conjunctions; pc implies their disjunction (joined paths, used to case-split hard obligations)
+	probe  *[]string      // non-nil: heap reads resolve to formal parameters hp!<key> (recursive spec function bodies)
+	leaves [][]Term       // conjunctions; pc implies their disjunction (joined paths, used to case-split hard obligations)
 }
 
 func (s *State) clone() *State {
@@ -44,20 +45,20 @@ func (s *State) clone() *State {
 }
 
 type Obligation struct {
-	Name    string
-	Func    string
-	Kind    string
-	Tag     string
-	NAssump int
-	NDecl   int
-	PC      Term
-	Goal    Term
-	Desc    string
-	Pos     string
-	Bounded int // >0: depends on a loop unrolled K times with an unwinding assumption
-	Smoke   bool
-	Splits  [][]Term
-	NSplit  int
+	Name     string
+	Func     string
+	Kind     string
+	Tag      string
+	NAssump  int
+	NDecl    int
+	PC       Term
+	Goal     Term
+	Desc     string
+	Pos      string
+	Bounded  int // >0: depends on a loop unrolled K times with an unwinding assumption
+	Smoke    bool
+	Splits   [][]Term
+	NSplit   int
 	Cut      int    // premises before this index (other than the preconditions, global axioms and the definitions the query refers to) belong to code before the enclosing loop head
 	ViewGoal string // goal body with placeholder @V@ when the goal is forall v in 0..65536 :: body
 	// filled by the discharger
@@ -84,24 +85,24 @@ type Exec struct {
 	contract *Contract
 	opts     *Options
 
-	decls    []string
-	declared map[string]bool
-	assumps  []string
-	atags    map[int]string // assumption index -> premise-selection tag
-	actx     map[int]string // assumption index -> path condition under which it was introduced
-	ctxPC    string
-	ctxMark  int
+	decls     []string
+	declared  map[string]bool
+	assumps   []string
+	atags     map[int]string // assumption index -> premise-selection tag
+	actx      map[int]string // assumption index -> path condition under which it was introduced
+	ctxPC     string
+	ctxMark   int
 	pcParents map[string][]string
-	obls     []*Obligation
-	nfresh   int
-	wordMode bool
-	counters map[string]int
-	dtSorts  map[string]bool
+	obls      []*Obligation
+	nfresh    int
+	wordMode  bool
+	counters  map[string]int
+	dtSorts   map[string]bool
 
-	entry   *State // snapshot at function entry (for old())
-	alloc0  Term
-	frames  []*ctlFrame
-	results []types.Object // result variables of the function under verification
+	entry    *State // snapshot at function entry (for old())
+	alloc0   Term
+	frames   []*ctlFrame
+	results  []types.Object // result variables of the function under verification
 	resStack [][]types.Object
 
 	boundedK    int      // current unwinding taint (0 = none)
@@ -117,29 +118,30 @@ type Exec struct {
 	boxed       map[types.Object]bool
 	noFrame     bool
 
-	heapMetas      map[string]heapMeta
-	defs           map[string]string
-	freshRefs      map[string]bool
-	declLog        []string
-	loopOrds       map[ast.Node]int
-	inlineContract *Contract
-	inlineStack    []string
-	curPkg         *FuncInfo
-	synth          []*types.Var
-	dry            int
-	dryStores      []dryStore
-	typeCache      map[string]types.Type
-	implCache      map[string][]types.Type
-	entryVars      map[string]TV
-	specPos        token.Pos
-	specErrors     []string
-	predFamilies   map[string][]string
-	predBridges    []predBridge
-	nq             int
-	recInProgress  map[string]bool
-	recKeys        map[string][]string
-	usedLemmas     []string
-	revealOpaque   bool
+	heapMetas       map[string]heapMeta
+	defs            map[string]string
+	freshRefs       map[string]bool
+	declLog         []string
+	loopOrds        map[ast.Node]int
+	inlineContract  *Contract
+	inlineStack     []string
+	curPkg          *FuncInfo
+	synth           []*types.Var
+	dry             int
+	dryStores       []dryStore
+	typeCache       map[string]types.Type
+	implCache       map[string][]types.Type
+	entryVars       map[string]TV
+	specPos         token.Pos
+	specErrors      []string
+	predFamilies    map[string][]string
+	assumedSafe map[string]bool
+	predBridges     []predBridge
+	nq              int
+	recInProgress   map[string]bool
+	recKeys         map[string][]string
+	usedLemmas      []string
+	revealOpaque    bool
 	calledContracts map[string]bool
 	bodyStart       int // premises before this index are preconditions / entry facts
 	viewFacts       []viewFact
@@ -365,8 +367,18 @@ func (e *Exec) oblige(st *State, kind, tag string, goal Term, desc string, p tok
 	e.obligeNamed(st, name, kind, tag, goal, desc, p)
 	switch kind {
 	case "idx", "slice", "nil", "div", "make":
+		if os.Getenv("RVC_NOASSUME") != "" {
+			break
+		}
 		// execution continues only when the check passed (otherwise the program panics): one defect, one report
-		e.assume(st, goal)
+		key := st.pc.S + "|" + goal.S
+		if e.assumedSafe == nil {
+			e.assumedSafe = map[string]bool{}
+		}
+		if !e.assumedSafe[key] && goal.S != "true" {
+			e.assumedSafe[key] = true
+			e.assume(st, goal)
+		}
 	}
 }
 
@@ -894,7 +906,7 @@ func (e *Exec) zeroElem(t types.Type) Term {
 // ---------------------------------------------------------------------------
 // Heap
 
-func elemKey(t types.Type) string  { return "M_" + typeKey(t) }
+func elemKey(t types.Type) string { return "M_" + typeKey(t) }
 func fieldKey(structT types.Type, field string) string {
 	return "F_" + structName(structT) + "_" + field
 }
